@@ -325,6 +325,7 @@ MAINLOOP:
 			return
 		}
 
+	REREAD:
 		newVal, parseErr := ws.Value(ctx, t)
 
 		configExists := !os.IsNotExist(parseErr)
@@ -360,7 +361,7 @@ MAINLOOP:
 				watchingFile = true
 			}
 		}
-		ws.updateDirWatches(cleanedPathDir, oldResolvedCfgDir, filepath.Dir(resolvedCfgPath))
+		newDirWatched := ws.updateDirWatches(cleanedPathDir, oldResolvedCfgDir, filepath.Dir(resolvedCfgPath))
 
 		switch t := parseErr.(type) {
 		case nil:
@@ -377,30 +378,38 @@ MAINLOOP:
 		default:
 			args.ReportError(ctx, t)
 		}
+		if newDirWatched {
+			// The file was read before its new directory was watched: a
+			// write in between produced no event, so read once more (the
+			// checksum keeps an unchanged file from being reported twice).
+			goto REREAD
+		}
 	}
 
 }
 
-func (ws *WatchingSource) updateDirWatches(cleanedPathDir, oldResolvedCfgDir, resolvedCfgDir string) {
+// updateDirWatches reports whether a watch on a new directory was added.
+func (ws *WatchingSource) updateDirWatches(cleanedPathDir, oldResolvedCfgDir, resolvedCfgDir string) bool {
 	if oldResolvedCfgDir == resolvedCfgDir {
-		return
+		return false
 	}
 	// If the config's resolved directory has changed, make sure we
 	// remove the old watch after the new one is added so we don't lose change notifications
 	if addErr := ws.watcher.Add(resolvedCfgDir); addErr != nil {
 		ws.logger.Printf("failed to add new watch for symlink-resolved directory: %q: %s",
 			resolvedCfgDir, addErr)
-		return
+		return false
 	}
 	if oldResolvedCfgDir == cleanedPathDir {
 		// the config's own directory stays watched for as long as we run:
 		// that is where the file (or the symlink to it) gets replaced.
-		return
+		return true
 	}
 	if removeErr := ws.watcher.Remove(oldResolvedCfgDir); removeErr != nil {
 		ws.logger.Printf("failed to remove old watch for old symlink-resolved directory: %q: %s",
 			oldResolvedCfgDir, removeErr)
 	}
+	return true
 }
 
 // StdLogger is an interface satisified by several logging types, including the
